@@ -1,10 +1,16 @@
 #!/bin/bash
 # run every seeded change against the quick check of its own property (on a patched scratch copy of /repo)
+# usage: tools/seedmatrix.sh [glob]      -> seeded/DETECTION.txt
 out=/verif/seeded/DETECTION.txt
+pat=${1:-C*-*m[0-9]*}
 : > $out.tmp
-for d in /verif/seeded/C*-m*; do
+for d in /verif/seeded/$pat; do
+  [ -f $d/patch.diff ] || continue
   n=$(basename $d); p=${n%%-*}
   res=$(/verif/tools/mutrun.sh $d/patch.diff $p --tier quick 2>&1); rc=$?
+  if echo "$res" | grep -q 'patch failed\|does not apply'; then
+    echo "$n check=$p PATCH-STALE (does not apply to the current /repo tree)" >> $out.tmp; continue
+  fi
   line=$(echo "$res" | grep -m1 '^VIOLATION\|^UNDECIDED\|^CHECKER' | sed 's#/tmp/pfst-mut[^ ]*/out/replays/##' | cut -c1-200)
   echo "$n check=$p exit=$rc $line" >> $out.tmp
 done
